@@ -442,8 +442,8 @@ func (m *clientHelloMsg) unmarshal(data []byte) bool {
 			if !extData.ReadUint16LengthPrefixed(&curves) || curves.Empty() {
 				return false
 			}
+			m.supportedCurves = make([]CurveID, 0, len(curves)/2)
 			for !curves.Empty() {
-				m.supportedCurves = make([]CurveID, 0, len(curves)/2)
 				var curve uint16
 				if !curves.ReadUint16(&curve) {
 					return false
@@ -456,8 +456,8 @@ func (m *clientHelloMsg) unmarshal(data []byte) bool {
 			if !extData.ReadUint16LengthPrefixed(&sigAndAlgs) || sigAndAlgs.Empty() {
 				return false
 			}
+			m.supportedSignatureAlgorithms = make([]SignatureScheme, 0, len(sigAndAlgs)/2)
 			for !sigAndAlgs.Empty() {
-				m.supportedSignatureAlgorithms = make([]SignatureScheme, 0, len(sigAndAlgs)/2)
 				var sigAndAlg uint16
 				if !sigAndAlgs.ReadUint16(&sigAndAlg) {
 					return false
